@@ -175,6 +175,17 @@ def rule_claim_flag(ctx: RuleContext, p: Program, rid: str) -> None:
               and norm(a.targets[0].value) == 'self._repeated.items']
     n += 1
     ok = len(loops) == 1 and len(stores) == 1 and norm(loops[0].iter) == norm(stores[0].value)
+    if not ok and len(loops) == 1 and len(stores) == 1 and isinstance(loops[0].iter, ast.Name):
+        # the flagged collection may be a selection of the stored one: name = [x for x in <stored> if ...] / filter(.., <stored>)
+        defs = [a for a in walk_no_nested(cl.node) if isinstance(a, ast.Assign) and len(a.targets) == 1 and norm(a.targets[0]) == loops[0].iter.id]
+        if len(defs) == 1:
+            v = defs[0].value
+            if isinstance(v, (ast.ListComp, ast.GeneratorExp)) and len(v.generators) == 1 and norm(v.generators[0].iter) == norm(stores[0].value) \
+                    and norm(v.elt) == norm(v.generators[0].target):
+                ok = True
+            if isinstance(v, ast.Call) and norm(v.func) in ('list', 'tuple') and v.args and isinstance(v.args[0], ast.Call) \
+                    and norm(v.args[0].func) == 'filter' and len(v.args[0].args) == 2 and norm(v.args[0].args[1]) == norm(stores[0].value):
+                ok = True
     ctx.check(ok, rid, 'models.internal.interleaving_comments:_CommentClaimer.claim', 'flagged items == stored items',
               'claim() flags comments from one collection but stores a different one into items', cl.where,
               note=f'iterates and stores {norm(stores[0].value) if stores else None}')
